@@ -90,6 +90,15 @@ def parse_value(val):
     return None
 
 
+def slack():
+    """Timeouts are wall-clock; when the machine is oversubscribed (several checks running at once) every solver gets
+    a fraction of a core, so budgets are stretched by the load factor (at most 4x).  A verdict never depends on it."""
+    try:
+        return min(4.0, max(1.0, os.getloadavg()[0] / (os.cpu_count() or 1)))
+    except OSError:
+        return 1.0
+
+
 def run_portfolio(text, timeout=20, solvers=None, want_model=True, need=1, use_cache=None, fast=False):
     """Race the solvers on `text` (an SMT-LIB script ending in (check-sat)).
     Returns Result.  need = number of solvers that must agree on a definite answer before
@@ -113,6 +122,7 @@ def run_portfolio(text, timeout=20, solvers=None, want_model=True, need=1, use_c
                 _store_cache(h, {"h": h, "status": "unsat", "solver": r.solver, "need": 1, "per_solver": r.per_solver})
             return r
     solvers = solvers or list(SOLVERS)
+    timeout = int(round(timeout * slack()))
     fd, path = tempfile.mkstemp(suffix=".smt2", prefix="govc_")
     full = text
     if want_model and "(get-model)" not in text:
